@@ -1516,12 +1516,11 @@ pub fn blank_plan() -> BoxedStrategy<Vec<u8>> {
 }
 
 /// `formula_text()` style strategy for other properties: well-formed formula text (without `=`)
-/// restricted to the forms that survive the tokenizer unchanged (no array constants, no `@`).
+/// restricted to the forms that survive the tokenizer unchanged (no `@`).
 pub fn formula_text() -> BoxedStrategy<String> {
     (expr(), blank_plan())
         .prop_map(|(e, b)| {
             let e = e.map(&mut |x| match x {
-                Expr::Array(rows) => rows[0][0].clone(),
                 Expr::At(inner) => *inner,
                 Expr::Err { qual: None, text } if !CLASSIC_ERRORS.contains(&text.as_str()) => Expr::Err { qual: None, text: "#N/A".into() },
                 o => o,
